@@ -1,4 +1,5 @@
 from checks import server_family
+from checks import c04
 
 
 def c08(ctx):
@@ -18,6 +19,7 @@ def c07(ctx):
 
 
 CHECKS = {
+    "C04": c04.run,
     "C02": c02,
     "C06": c06,
     "C07": c07,
